@@ -143,6 +143,18 @@ fn flat_pairs(t: &Tok) -> Vec<(String, Vec<u8>)> {
 }
 
 pub fn run(toks: Vec<Tok>) -> Vec<Tok> {
+    // a wedged exchange re-offers the same bytes for ever inside one poll: watchdog thread
+    let (tx, rx) = std::sync::mpsc::channel();
+    std::thread::spawn(move || {
+        let _ = tx.send(run_inner(toks));
+    });
+    match rx.recv_timeout(Duration::from_secs(5)) {
+        Ok(v) => v,
+        Err(_) => vec![vec![995]],
+    }
+}
+
+fn run_inner(toks: Vec<Tok>) -> Vec<Tok> {
     let version = toks[0][0] as u8;
     let origin_closes = toks[0][1] == 1;
     let method = String::from_utf8_lossy(&bytes(&toks[1])).to_string();
